@@ -174,6 +174,31 @@ Definition on_accept (shape : accept_shape) (f : afilter) (peer : ip) : list acc
   | Unguarded calls => calls
   end.
 
+(* ---------- the accept DECISION over a sequence of connections ---------- *)
+(* The server task lives across connections, so a guard could consult state left by earlier ones. `other_cond` stands
+   for whatever a conjunct that is not the filter test computes: an arbitrary function of the conjunct's text, of the
+   peers accepted so far on this listener (in order) and of the current peer. *)
+Definition other_cond := string -> list ip -> ip -> bool.
+Definition eval_conjunct (o : other_cond) (hist : list ip) (f : afilter) (peer : ip) (c : guard_conjunct) : bool :=
+  match c with
+  | GMatches => matches f peer
+  | GNotMatches => negb (matches f peer)
+  | GOther e => o e hist peer
+  end.
+(* is the freshly accepted connection handed to self.handle? *)
+Definition served (g : list guard_conjunct) (k : guard_kind) (o : other_cond) (hist : list ip) (f : afilter) (peer : ip) : bool :=
+  let v := forallb (eval_conjunct o hist f peer) g in
+  match k with
+  | ServeInThen => v
+  | RejectInThen => negb v
+  | GuardUnknown => o EmptyString hist peer
+  end.
+Fixpoint serve_seq (g : list guard_conjunct) (k : guard_kind) (o : other_cond) (hist : list ip) (f : afilter) (peers : list ip) : list bool :=
+  match peers with
+  | [] => []
+  | p :: rest => served g k o hist f p :: serve_seq g k o (hist ++ [p]) f rest
+  end.
+
 Definition uses_socket (c : accept_call) : bool :=
   match c with CallLog => false | _ => true end.
 
